@@ -1,5 +1,5 @@
 /-
-  C11 — `checked_gamma_lr`, SERIES branch (src/function/gamma.rs:310–324), in exact real arithmetic:
+  C11 — `checked_gamma_lr`, SERIES branch (src/function/gamma.rs:307–321), in exact real arithmetic:
   what the generated loop computes.
 
   With `term a x n = x^n/((a+1)…(a+n))`, `psum a x n = Σ_{k≤n} term a x k` and
@@ -10,7 +10,8 @@
                               (needs `N − k ≤ fuel`);
   * `gamma_lr_series_value`   `checked_gamma_lr a x = ok (exp(a·ln x − x − LG a) · S_N / a)`, `N = stopIdx a x 1e-15`,
                               `LG = F.gamma.ln_gamma` (the model's Lanczos code, never unfolded), under the
-                              guards of the branch and `N ≤ loopFuel`;
+                              guards of the branch and `N ≤ loopFuel` — for `a > 1.11e-15` and EVERY `x > 0`
+                              (the `x ≈ 0 ⇒ Ok(0.0)` shortcut is gone, commit 9f2f5b7);
   * `gamma_lr_series_stop_le` termination: the test fires, and `N ≤ ⌈a⌉ + 50`;
   * `gamma_lr_series_fuel`, `gamma_lr_series_value_of_le`  no fuel hypothesis needed for `a ≤ 2 847 142`;
   * `gamma_lr_series_hang_counterexample`  the fuel hypothesis cannot be dropped: at `a = x = 1e10` the model's
@@ -74,44 +75,50 @@ theorem gamma_lr_loop1_hang (eps x a : ℝ) :
 
 /-! ### the guards of the branch over ℝ -/
 
-/-- full(ℝ): over ℝ the NaN / domain / `almost_eq(·, 0)` guards of `checked_gamma_lr` are all false for
-    `a, x > DEFAULT_F64_ACC = 1.11…e-15`. -/
-theorem gamma_lr_guards_real {a x : ℝ} (ha : (0.0000000000000011102230246251565 : ℝ) < a)
-    (hx : (0.0000000000000011102230246251565 : ℝ) < x) :
+/-- full(ℝ): over ℝ the four prologue guards of `checked_gamma_lr` (NaN, `a` domain, `x` domain, `almost_eq(a, 0)`)
+    are all false for `a > DEFAULT_F64_ACC = 1.11…e-15` and EVERY `x > 0` (there is no `almost_eq(x, 0)` guard any
+    more: commit 9f2f5b7). -/
+theorem gamma_lr_guards_real {a x : ℝ} (ha : (0.0000000000000011102230246251565 : ℝ) < a) (hx : 0 < x) :
     (¬ ((RFun.isNaN a = true) ∨ (RFun.isNaN x = true))) ∧
     (¬ ((a ≤ (0.0 : ℝ)) ∨ ((a == (RFun.inf : ℝ)) = true))) ∧
     (¬ ((x ≤ (0.0 : ℝ)) ∨ ((x == (RFun.inf : ℝ)) = true))) ∧
-    (¬ (R.prec.almost_eq a (0.0 : ℝ) (R.prec.DEFAULT_F64_ACC (α := ℝ))) = true) ∧
-    (¬ (R.prec.almost_eq x (0.0 : ℝ) (R.prec.DEFAULT_F64_ACC (α := ℝ))) = true) := by
+    (¬ (R.prec.almost_eq a (0.0 : ℝ) (R.prec.DEFAULT_F64_ACC (α := ℝ))) = true) := by
   have ha0 : (0 : ℝ) < a := lt_trans (by norm_num) ha
-  have hx0 : (0 : ℝ) < x := lt_trans (by norm_num) hx
   have hinf : (RFun.inf : ℝ) = 0 := rfl
   have h0 : (0.0 : ℝ) = 0 := by norm_num
-  refine ⟨by simp, ?_, ?_, ?_, ?_⟩
+  refine ⟨by simp, ?_, ?_, ?_⟩
   · rw [hinf, h0]; simp [not_le.mpr ha0, ha0.ne']
-  · rw [hinf, h0]; simp [not_le.mpr hx0, hx0.ne']
+  · rw [hinf, h0]; simp [not_le.mpr hx, hx.ne']
   · rw [Statrs.Props.C20.almost_eq_real, h0, sub_zero, abs_of_pos ha0]
     simp only [R.prec.DEFAULT_F64_ACC]; exact fun h => not_le.mpr ha (of_decide_eq_true h)
-  · rw [Statrs.Props.C20.almost_eq_real, h0, sub_zero, abs_of_pos hx0]
-    simp only [R.prec.DEFAULT_F64_ACC]; exact fun h => not_le.mpr hx (of_decide_eq_true h)
 
-/-- full(ℝ): the SERIES branch of `checked_gamma_lr` in exact arithmetic.  For `a`, `x` above the
-    `almost_eq(·, 0)` shortcuts (`> 1.11e-15`), not in the underflow shortcut (`ax ≥ −709.78…`), in the series
+/-- full(ℝ): the test of the REMOVED `x ≈ 0` shortcut, `almost_eq(x, 0.0, DEFAULT_F64_ACC)`, over ℝ: it is true exactly
+    for `0 < x ≤ 1.11…e-15` — the arguments that used to return `Ok(0.0)` and now reach the series. -/
+theorem almost_eq_x_zero_real {x : ℝ} (hx : 0 < x) :
+    (R.prec.almost_eq x (0.0 : ℝ) (R.prec.DEFAULT_F64_ACC (α := ℝ))) = true
+      ↔ x ≤ (0.0000000000000011102230246251565 : ℝ) := by
+  have h0 : (0.0 : ℝ) = 0 := by norm_num
+  rw [Statrs.Props.C20.almost_eq_real, h0, sub_zero, abs_of_pos hx]
+  simp only [R.prec.DEFAULT_F64_ACC]; exact decide_eq_true_iff
+
+/-- full(ℝ): the SERIES branch of `checked_gamma_lr` in exact arithmetic.  For `a` above the
+    `almost_eq(a, 0)` shortcut (`> 1.11e-15`), EVERY `x > 0` (also `0 < x ≤ 1.11e-15`, which before commit 9f2f5b7
+    was cut off to `Ok(0.0)`), not in the underflow shortcut (`ax ≥ −709.78…`), in the series
     region `x ≤ 1 ∨ x ≤ a`, and when the stopping index `N = stopIdx a x 1e-15` (least `n ≥ 1` with
     `c_n / S_n ≤ 1e-15`) is within the model's loop fuel, the generated function returns
     `exp(a·ln x − x − LG a) · S_N / a` with `LG = F.gamma.ln_gamma` (the model's own Lanczos `ln_gamma`). -/
 theorem gamma_lr_series_value (a x : ℝ) (ha : (0.0000000000000011102230246251565 : ℝ) < a)
-    (hx : (0.0000000000000011102230246251565 : ℝ) < x)
+    (hx : 0 < x)
     (hu : -(709.78271289338399 : ℝ) ≤ a * Real.log x - x - F.gamma.ln_gamma a)
     (hs : x ≤ 1 ∨ x ≤ a) (hfuel : stopIdx a x 1e-15 ≤ loopFuel) :
     F.gamma.checked_gamma_lr a x =
       .ok (Real.exp (a * Real.log x - x - F.gamma.ln_gamma a) * psum a x (stopIdx a x 1e-15) / a) := by
-  obtain ⟨g1, g2, g3, g4, g5⟩ := gamma_lr_guards_real ha hx
+  obtain ⟨g1, g2, g3, g4⟩ := gamma_lr_guards_real ha hx
   have ha0 : (0 : ℝ) < a := lt_trans (by norm_num) ha
-  have hx0 : (0 : ℝ) < x := lt_trans (by norm_num) hx
+  have hx0 : (0 : ℝ) < x := hx
   have hloop := gamma_lr_loop1_start (1e-15) x a ha0.le hx0 (by norm_num) loopFuel hfuel
   have e15 : (0.000000000000001 : ℝ) = 1e-15 := by norm_num
-  have h := BranchPins.checked_gamma_lr_series a x _ _ _ g1 g2 g3 g4 g5
+  have h := BranchPins.checked_gamma_lr_series a x _ _ _ g1 g2 g3 g4
     (by simpa using not_lt.mpr hu) (by rw [show (1.0 : ℝ) = 1 by norm_num]; exact hs) (by rw [e15]; exact hloop)
   rw [h]
   rfl
@@ -142,17 +149,17 @@ theorem gamma_lr_series_fuel (a x : ℝ) (ha : 0 < a) (hx : 0 < x) (hs : x ≤ 1
 
 /-- full(ℝ): for `a ≤ 2 847 142` the series branch needs no fuel hypothesis. -/
 theorem gamma_lr_series_value_of_le (a x : ℝ) (ha : (0.0000000000000011102230246251565 : ℝ) < a)
-    (hx : (0.0000000000000011102230246251565 : ℝ) < x)
+    (hx : 0 < x)
     (hu : -(709.78271289338399 : ℝ) ≤ a * Real.log x - x - F.gamma.ln_gamma a)
     (hs : x ≤ 1 ∨ x ≤ a) (ha2 : a ≤ 2847142) :
     F.gamma.checked_gamma_lr a x =
       .ok (Real.exp (a * Real.log x - x - F.gamma.ln_gamma a) * psum a x (stopIdx a x 1e-15) / a) :=
   gamma_lr_series_value a x ha hx hu hs
-    (gamma_lr_series_fuel a x (lt_trans (by norm_num) ha) (lt_trans (by norm_num) hx) hs ha2)
+    (gamma_lr_series_fuel a x (lt_trans (by norm_num) ha) hx hs ha2)
 
 /-- full(ℝ): the unwrapped `gamma_lr` in the series branch. -/
 theorem gamma_lr_series_value_unwrapped (a x : ℝ) (ha : (0.0000000000000011102230246251565 : ℝ) < a)
-    (hx : (0.0000000000000011102230246251565 : ℝ) < x)
+    (hx : 0 < x)
     (hu : -(709.78271289338399 : ℝ) ≤ a * Real.log x - x - F.gamma.ln_gamma a)
     (hs : x ≤ 1 ∨ x ≤ a) (hfuel : stopIdx a x 1e-15 ≤ loopFuel) :
     F.gamma.gamma_lr a x =
@@ -163,7 +170,7 @@ theorem gamma_lr_series_value_unwrapped (a x : ℝ) (ha : (0.0000000000000011102
 
 /-- non-vacuity of the hypotheses of `gamma_lr_series_value` other than the underflow guard (which is a
     statement about the abstract Lanczos value): `a = 2`, `x = 1`. -/
-example : (0.0000000000000011102230246251565 : ℝ) < 2 ∧ (0.0000000000000011102230246251565 : ℝ) < 1 ∧
+example : (0.0000000000000011102230246251565 : ℝ) < 2 ∧ (0 : ℝ) < 1 ∧
     ((1 : ℝ) ≤ 1 ∨ (1 : ℝ) ≤ 2) ∧ stopIdx 2 1 1e-15 ≤ loopFuel := by
   refine ⟨by norm_num, by norm_num, Or.inl le_rfl, ?_⟩
   have h1 := (gamma_lr_series_stop_le 2 1 two_pos one_pos (Or.inl le_rfl)).2.2
@@ -227,9 +234,9 @@ theorem gamma_lr_series_hang_counterexample :
 theorem gamma_lr_series_hang_value_rel
     (hu : -(709.78271289338399 : ℝ) ≤ 1e10 * Real.log 1e10 - 1e10 - F.gamma.ln_gamma (1e10 : ℝ)) :
     F.gamma.checked_gamma_lr (1e10 : ℝ) 1e10 = panicV := by
-  obtain ⟨g1, g2, g3, g4, g5⟩ := gamma_lr_guards_real (a := 1e10) (x := 1e10) (by norm_num) (by norm_num)
+  obtain ⟨g1, g2, g3, g4⟩ := gamma_lr_guards_real (a := 1e10) (x := 1e10) (by norm_num) (by norm_num)
   have e15 : (0.000000000000001 : ℝ) = 1e-15 := by norm_num
-  exact BranchPins.checked_gamma_lr_series_hang 1e10 1e10 g1 g2 g3 g4 g5
+  exact BranchPins.checked_gamma_lr_series_hang 1e10 1e10 g1 g2 g3 g4
     (by simpa using not_lt.mpr hu) (Or.inr le_rfl) (by rw [e15]; exact gamma_lr_series_hang_counterexample)
 
 end Statrs.Props.C11
